@@ -2,6 +2,198 @@
 
 package mimetype
 
-func (g *vfGen) runMore6(slice string) bool { return false }
+import (
+	vzip "archive/zip"
+	"bytes"
+	"compress/flate"
+	"fmt"
+	"strings"
+)
 
-func vfExecMore6(f []string, op string) (string, bool) { return "", false }
+func vfExecMore6(f []string, op string) (string, bool) {
+	switch f[0] {
+	case "zip": // zip hex   (limit 0)
+		data := vfUnhex(f[1])
+		SetLimit(0)
+		in, _ := vfExact(data)
+		m := Detect(in)
+		names := "~"
+		if zr, err := vzip.NewReader(bytes.NewReader(data), int64(len(data))); err == nil {
+			var ns []string
+			for _, fl := range zr.File {
+				ns = append(ns, vfHex([]byte(fl.Name)))
+			}
+			if len(ns) > 0 {
+				names = strings.Join(ns, ",")
+			}
+		} else {
+			names = "!"
+		}
+		return fmt.Sprintf("%s => %s %s", op, vfChain(m), names), true
+	}
+	return vfExecMore7(f, op)
+}
+
+func (g *vfGen) runMore6(slice string) bool {
+	switch slice {
+	case "C19":
+		g.genC19()
+	default:
+		return g.runMore7(slice)
+	}
+	return true
+}
+
+type vfEntry struct {
+	name   string
+	body   []byte
+	stored bool
+	nodesc bool // write sizes into the local header (no data descriptor)
+}
+
+func (g *vfGen) body(n int) []byte {
+	if g.rng.Intn(3) == 0 {
+		// highly compressible (XML-like repetition): compressed size << uncompressed size
+		return bytes.Repeat([]byte("<Override PartName=\"/x\" ContentType=\"y\"/>"), 2+n/20)
+	}
+	b := make([]byte, n)
+	for i := range b {
+		b[i] = "abcdefghijklmnopqrstuvwxyz <>/=\"\n"[g.rng.Intn(33)]
+	}
+	return b
+}
+
+func vfZip(entries []vfEntry) []byte {
+	var buf bytes.Buffer
+	w := vzip.NewWriter(&buf)
+	for _, e := range entries {
+		h := &vzip.FileHeader{Name: e.name, Method: vzip.Deflate}
+		if e.stored {
+			h.Method = vzip.Store
+		}
+		if e.nodesc {
+			// raw entry: we supply sizes and CRC, the writer emits no data descriptor
+			var comp bytes.Buffer
+			if e.stored {
+				h.Method = vzip.Store
+				comp.Write(e.body)
+			} else {
+				h.Method = vzip.Deflate
+				fw, _ := flate.NewWriter(&comp, flate.BestCompression)
+				fw.Write(e.body)
+				fw.Close()
+			}
+			h.CompressedSize64 = uint64(comp.Len())
+			h.UncompressedSize64 = uint64(len(e.body))
+			h.CRC32 = vfCRC(e.body)
+			fw, err := w.CreateRaw(h)
+			if err == nil {
+				fw.Write(comp.Bytes())
+			}
+			continue
+		}
+		fw, err := w.CreateHeader(h)
+		if err == nil {
+			fw.Write(e.body)
+		}
+	}
+	w.Close()
+	return buf.Bytes()
+}
+
+func vfCRC(b []byte) uint32 {
+	crc := ^uint32(0)
+	for _, x := range b {
+		crc ^= uint32(x)
+		for k := 0; k < 8; k++ {
+			if crc&1 != 0 {
+				crc = (crc >> 1) ^ 0xEDB88320
+			} else {
+				crc >>= 1
+			}
+		}
+	}
+	return ^crc
+}
+
+func (g *vfGen) genC19() {
+	book := []string{"_rels/.rels", "docProps/app.xml", "docProps/core.xml", "customXml/item1.xml", "customXml/itemProps1.xml", "docProps/thumbnail.jpeg"}
+	markers := map[string][]string{
+		"docx": {"word/document.xml", "word/styles.xml", "word/_rels/document.xml.rels"},
+		"xlsx": {"xl/workbook.xml", "xl/worksheets/sheet1.xml"},
+		"pptx": {"ppt/presentation.xml", "ppt/slides/slide1.xml"},
+	}
+	near := []string{"words/document.xml", "Xl/workbook.xml", "pptx/presentation.xml", "wordcount.txt", "xlarge/picture.png", "images/word/doc.xml"}
+	other := []string{"images/picture-0001.png", "data/readme-file.txt", "assets/stylesheet.css", "META-INF/container.xml", "content/chapter-01.xhtml"}
+	mk := func(name string) vfEntry {
+		return vfEntry{name: name, body: g.body(30 + g.rng.Intn(200)), stored: g.rng.Intn(3) == 0, nodesc: g.rng.Intn(4) == 0}
+	}
+	emit := func(es []vfEntry) {
+		z := vfZip(es)
+		g.emit(vfOp("walk", z, 0))
+		g.emit(vfOp("zip", z))
+	}
+	n := g.pick(250, 6000)
+	for i := 0; i < n; i++ {
+		switch g.rng.Intn(7) {
+		case 0, 1, 2: // OOXML: marker of one family at entry position 2..9
+			fam := []string{"docx", "xlsx", "pptx"}[g.rng.Intn(3)]
+			pos := 1 + g.rng.Intn(8)
+			es := []vfEntry{mk("[Content_Types].xml")}
+			if g.rng.Intn(10) == 0 {
+				es[0] = mk([]string{"_rels/.rels", "docProps/app.xml", "customXml/item1.xml", "[trash]/0000.dat"}[g.rng.Intn(4)])
+			}
+			for len(es) < pos {
+				pool := book
+				if g.rng.Intn(4) == 0 {
+					pool = near
+				}
+				es = append(es, mk(pool[g.rng.Intn(len(pool))]))
+			}
+			for _, m := range markers[fam] {
+				es = append(es, mk(m))
+			}
+			es = append(es, mk(other[g.rng.Intn(len(other))]))
+			emit(es)
+		case 3: // JAR / APK
+			es := []vfEntry{mk("META-INF/MANIFEST.MF")}
+			if g.rng.Intn(2) == 0 {
+				k := g.rng.Intn(7)
+				for j := 0; j < k; j++ {
+					es = append(es, mk(other[g.rng.Intn(len(other))]))
+				}
+				es = append(es, mk([]string{"AndroidManifest.xml", "classes.dex", "resources.arsc", "res/drawable/icon.png"}[g.rng.Intn(4)]))
+			} else {
+				for j := 0; j < 1+g.rng.Intn(5); j++ {
+					es = append(es, mk(fmt.Sprintf("com/example/Class%04d.class", j)))
+				}
+			}
+			emit(es)
+		case 4: // OpenDocument / EPUB
+			types := []string{"application/vnd.oasis.opendocument.text", "application/vnd.oasis.opendocument.text-template",
+				"application/vnd.oasis.opendocument.spreadsheet", "application/vnd.oasis.opendocument.spreadsheet-template",
+				"application/vnd.oasis.opendocument.presentation", "application/vnd.oasis.opendocument.presentation-template",
+				"application/vnd.oasis.opendocument.graphics", "application/vnd.oasis.opendocument.graphics-template",
+				"application/vnd.oasis.opendocument.formula", "application/vnd.oasis.opendocument.chart",
+				"application/epub+zip", "application/vnd.sun.xml.calc"}
+			t := types[g.rng.Intn(len(types))]
+			es := []vfEntry{{name: "mimetype", body: []byte(t), stored: true, nodesc: g.rng.Intn(2) == 0}}
+			es = append(es, mk("META-INF/manifest.xml"), mk("content.xml"), mk("styles.xml"))
+			emit(es)
+		case 5: // no marker at all
+			var es []vfEntry
+			for j := 0; j < 1+g.rng.Intn(8); j++ {
+				pool := other
+				if g.rng.Intn(3) == 0 {
+					pool = near
+				}
+				es = append(es, mk(pool[g.rng.Intn(len(pool))]))
+			}
+			emit(es)
+		default: // marker first
+			fam := []string{"docx", "xlsx", "pptx"}[g.rng.Intn(3)]
+			es := []vfEntry{mk(markers[fam][0]), mk("[Content_Types].xml"), mk(book[g.rng.Intn(len(book))])}
+			emit(es)
+		}
+	}
+}
